@@ -221,6 +221,53 @@ pub fn run(ctx: &Ctx, st: &mut Stats) -> Vec<Violation> {
         None
     }));
     st.exhaustive_parts.push("every luma code at every depth 8..16 (130,816 codes) x 7 matrices x 2 ranges with neutral chroma".into());
+    // real-size neutral frames (above 2^21 pixels), the two ranges of a depth decoded back to back on one
+    // thread in both orders: black exactly 0, white 1, greys grey, whatever was decoded before
+    let big: Vec<(usize, usize)> = if ctx.quick() { vec![(1449, 1449)] } else { vec![(1449, 1449), (2049, 2049), (3841, 2161)] };
+    out.extend(par_sweep(ctx, st, big.len() as u64 * 3, |lo, hi, st| {
+        for j in lo..hi {
+            let (w, h) = big[(j / 3) as usize];
+            let (depth, u8s) = [(8u8, true), (10, false), (16, false)][(j % 3) as usize];
+            let n = w * h;
+            let maxc = (1u32 << depth) - 1;
+            for full in [false, true, false, true] {
+                let c = cfg(STD_MC[(j % 7) as usize], TC::BT1886, CP::BT709, depth, full, (0, 0));
+                // the ramp repeated over the frame, black and white codes included
+                let k = 1u32 << (depth - 8);
+                let (black, white) = if full { (0u32, maxc) } else { (16 * k, 235 * k) };
+                let lumas: Vec<u16> = (0..n).map(|i| [black, white, (i as u32 * 7919) % (maxc + 1)][i % 3] as u16).collect();
+                let lumas = if n % 2 == 1 { lumas } else { lumas };
+                if let Err(v) = check_yuv_grey(&c, u8s, &lumas, st) {
+                    return Some(v);
+                }
+                st.evaluations += 1;
+                st.nontrivial_by_construction += 1;
+                st.class("large_grey_frames", 1);
+            }
+        }
+        None
+    }));
+    if !out.is_empty() {
+        return out;
+    }
+    // real-size linear grey images through XYB / HSL / primaries
+    out.extend(par_sweep(ctx, st, big.len() as u64, |lo, hi, st| {
+        for j in lo..hi {
+            let (w, h) = big[j as usize];
+            let n = w * h;
+            let vals: Vec<f32> = (0..n).map(|i| ((i * 2654435761usize) % 1_000_003) as f32 / 1_000_003.0).collect();
+            if let Err(v) = check_linear_greys(&vals, st) {
+                return Some(v);
+            }
+            st.evaluations += 1;
+            st.nontrivial_by_construction += 1;
+            st.class("large_linear_grey_images", 1);
+        }
+        None
+    }));
+    if !out.is_empty() {
+        return out;
+    }
     if !out.is_empty() {
         return out;
     }
@@ -299,4 +346,4 @@ pub fn replay(v: &Value) -> Result<(), String> {
     }
 }
 
-pub const RULE: &str = "enumeration: (a) every luma code at every depth 8..16 x 7 matrices x 2 ranges (u8 and u16 at 8 bit) with chroma 2^(n-1): RGB spread <= 5e-7, nominal black exactly 0, nominal white within 1e-6; (b) the 12 non-log curves x 2 directions at 0 (within 1e-6) and 1 (within the C03 budget); (c-e) linear grey levels (quick: 2^20+1 levels k/2^20 and every 4099th f32 bit pattern of [0,1]; thorough: every f32 in [0,1]) through XYB (|X|, |Y-B| <= 1e-6, black -> 0; both as pure grey ramps and embedded in images with coloured pixels and repeated grey levels), HSL (H=0, S=0, L=grey) and the 22 primaries conversions (spread <= 1e-5*max(1,|v|)); a case = one ramp / one block of grey levels; all cases are distinct by construction and all are non-trivial (they exercise the neutral axis, which is the subject of the property)";
+pub const RULE: &str = "enumeration: (a) every luma code at every depth 8..16 x 7 matrices x 2 ranges (u8 and u16 at 8 bit) with chroma 2^(n-1): RGB spread <= 5e-7, nominal black exactly 0, nominal white within 1e-6; (b) the 12 non-log curves x 2 directions at 0 (within 1e-6) and 1 (within the C03 budget); (c-e) linear grey levels (quick: 2^20+1 levels k/2^20 and every 4099th f32 bit pattern of [0,1]; thorough: every f32 in [0,1]) through XYB (|X|, |Y-B| <= 1e-6, black -> 0; both as pure grey ramps and embedded in images with coloured pixels and repeated grey levels), HSL (H=0, S=0, L=grey) and the 22 primaries conversions (spread <= 1e-5*max(1,|v|)); plus real-size neutral frames and linear grey images (above 2^21 pixels; thorough: above 2^22 and UHD+1), the two ranges of a depth decoded back to back; a case = one ramp / one block of grey levels / one frame; all cases are distinct by construction and all are non-trivial (they exercise the neutral axis, which is the subject of the property)";
